@@ -1795,3 +1795,34 @@ Lemma commands_apply_stops :
   exists t' e, commands_apply toy_hash fresh (cmdlog (toy_run fl_double_init)) = (t', Err e) /\
                pcrs t' <> pcrs (toy_run fl_double_init).
 Proof. eexists. eexists. split; [vm_compute; reflexivity|]. vm_compute. discriminate. Qed.
+
+(** the event log set up later than the TPM: InitTPM(3, false), a PCR0 measurement,
+    LogInit(3), another PCR0 measurement; then a stray LogInit(9) and a bare
+    EV_NO_ACTION entry.  Every extend is logged ([logged_flow]); not a [wf_flow]. *)
+Definition fl_late_loginit : list (list (BootSim.item (list Z))) :=
+  [[IInitTPM 3 false]; [IEvent 0 toy_data 1 None]; [ILogInit 3]; [IEvent 0 toy_data 8 (Some [7])];
+   [ILogInit 9; ILogAdd 0 ALG_SHA1 [1; 2] EV_NO_ACTION None]].
+
+Lemma late_loginit_logged : logged_flow (list Z) lit_bytes toy_hash 3 fl_late_loginit.
+Proof.
+  exists [], (IInitTPM 3 false). eexists. split; [reflexivity|]. split; [constructor|]. split; [reflexivity|].
+  apply LB_item; [cbn; unfold EV_NO_ACTION; discriminate|].
+  apply LB_item; [exact I|].
+  apply LB_item; [cbn; unfold EV_NO_ACTION; discriminate|].
+  apply LB_item; [exact I|].
+  apply LB_item; [reflexivity|].
+  apply LB_nil.
+Qed.
+
+(** the in-simulator routine seeded with the startup locality gives PCR0, a value
+    that is not the startup value; the routine that knows only the log rejects
+    this log (startup entry after a measurement of the same bank) *)
+Lemma late_loginit_values :
+  exists v, get (pcrs (toy_run fl_late_loginit)) 0 ALG_SHA1 = Ok v /\
+            EL.tpm_replay toy_hash (to_entries (evlog (toy_run fl_late_loginit))) 0 ALG_SHA1 3 = Ok v /\
+            v <> repeat 0 19 ++ [3] /\
+            (forall v', EL.replay toy_hash (to_parsed (evlog (toy_run fl_late_loginit))) 0 ALG_SHA1 <> Ok v').
+Proof.
+  eexists. split; [vm_compute; reflexivity|]. split; [vm_compute; reflexivity|].
+  split; [vm_compute; discriminate|]. intros v'. vm_compute. discriminate.
+Qed.
